@@ -7,6 +7,7 @@ import Driver.FilterD
 import Driver.C12
 import Driver.C14
 import Driver.THash
+import Driver.PHash
 /-! `mlsmodel <mode>`: reads queries from stdin, prints one model answer per line. -/
 
 def splitWs (line : String) : List String :=
@@ -30,9 +31,12 @@ def main (args : List String) : IO UInt32 := do
   | ["tree"] =>
     -- tree-layer rows; the tree-hash rows of the same stream are answered by the (stateless) tree-hash model
     loopS stdin stdout (fun (st : Driver.TreeD.St) ws =>
-      if ws.head? == some "thashspec" then (st, Driver.THash.handle ws) else Driver.TreeD.step st ws) {}; return 0
+      if ws.head? == some "thashspec" then (st, Driver.THash.handle ws)
+      else if ws.head? == some "phvalid" || ws.head? == some "phupd" then (st, Driver.PHash.handle ws)
+      else Driver.TreeD.step st ws) {}; return 0
   | ["c12"] => loopS stdin stdout (fun (_ : Unit) ws => ((), Driver.C12.handle ws)) (); return 0
   | ["c14"] => loopS stdin stdout (fun (_ : Unit) ws => ((), Driver.C14.handle ws)) (); return 0
+  | ["phash"] => loopS stdin stdout (fun (_ : Unit) ws => ((), Driver.PHash.handle ws)) (); return 0
   | ["thash"] => loopS stdin stdout (fun (_ : Unit) ws => ((), Driver.THash.handle ws)) (); return 0
   | ["c13"] => loopS stdin stdout Driver.C13.step {}; return 0
   | _ => IO.eprintln "usage: mlsmodel <mode>"; return 2
